@@ -765,7 +765,11 @@ def run_c14(script, rng, summary, driver=None):
         if after.get(k) != fresh.get(k):
             diffs.append(k)
     if after.get("objective") != fresh.get("objective") and definite(after) and definite(fresh):
-        diffs.append("objective")
+        if cfg.get("optimizer") == "optimize":
+            # z3.Optimize's answer varies from call to call (findings F44, F46): not a difference caused by history
+            count(summary, "run_c14_history_builtin_optimum_not_compared_z3_unstable")
+        else:
+            diffs.append("objective")
     if diffs:
         return {"what": "the problem behaves differently after other problems were built and solved in the same "
                         "interpreter than in a fresh one: " + ", ".join(diffs), "mode": "history", "cfg": cfg, "interleaved": interleave,
